@@ -67,6 +67,14 @@ def genHistory (pipe : String) (n : Nat) : G (List String) := do
       let foreign := (known.filter (fun x => x.1 != sc)).flatMap (fun x => x.2.map (·.1))
       let (m, kn', count, tnf) ← genScopedMsg version dom kn foreign
       known := (sc, kn') :: known.filter (fun x => x.1 != sc)
+      -- an IPFIX message whose last set is broken (reserved id, impossible length): the datagram is refused,
+      -- what its earlier template sets announced is known from now on all the same — also when this is
+      -- the first datagram the exporter ever sent
+      if version = 10 ∧ (← chance 1 8) then
+        let d := encode m
+        let broken := (d.take 2) ++ encBE 2 (d.length + 4) ++ (d.drop 4) ++ [0x00, 0x05, 0x00, 0x02]
+        out := out ++ [pktLine pipe e clock broken, "expect @res err", "expect @count 0"]
+        continue
       out := out ++ [pktLine pipe e clock (encode m),
         "expect @res " ++ (if tnf then "err:template-not-found" else "ok"),
         "expect @count " ++ toString count]
